@@ -134,7 +134,9 @@ func objChecks(scope, g int) ObjRef {
 	}
 	return ObjRef{core.App("OChecks", scopeTerm(scope), GrpName[g]), h}
 }
-func objBlock(b int) ObjRef { return ObjRef{core.App("OBlock", core.Nat(b)), fmt.Sprintf("block%d", b)} }
+func objBlock(b int) ObjRef {
+	return ObjRef{core.App("OBlock", core.Nat(b)), fmt.Sprintf("block%d", b)}
+}
 func objSeq(b, s int) ObjRef {
 	return ObjRef{core.App("OSeq", core.Nat(b), core.Nat(s)), fmt.Sprintf("block%d.seq%d", b, s)}
 }
